@@ -8,12 +8,14 @@ from harness import core
 ID = 'C28'
 TITLE = 'Upserts follow their specification'
 PROPS = ['Props/C28']
-RULE = ('each case: a fresh table T(A Text, B Int, C Text, D Int, F formula) with 0-6 rows (duplicate and missing keys, '
+RULE = ('each case: a fresh table T(A Text, B Int, C Text, D Int, F formula, E empty column) with 0-6 rows (duplicate and missing keys, '
         'gaps in row ids) and one BulkAddOrUpdateRecord/AddOrUpdateRecord call through apply_user_actions: 0-3 require '
         'columns out of A,B,C,F,id (rarely an unknown one), 0-2 value columns (rarely a formula/unknown/id column), 0-4 '
         'input rows, mistyped values ("1" for an Int column etc.), explicit row ids (existing, fresh, 0, negative, '
         'too high, repeated), every options combination, plus dedicated streams for empty require with/without '
-        'allow_empty_require, several input rows hitting the same record, mismatched lengths, duplicate keys; thorough '
+        'allow_empty_require, several input rows hitting the same record, mismatched lengths, duplicate keys, an EMPTY '
+        'column (isFormula=True, formula="") named in require and/or col_values, and repeated upserts (the same call '
+        'made a second time must update, not add); thorough '
         'adds an exhaustive small scope. A case is non-trivial when a record was added or updated or an argument '
         'error was raised')
 TRUSTED = ['Model/Upsert.v is hand-written; it is compared with the running engine on every generated case '
@@ -21,8 +23,10 @@ TRUSTED = ['Model/Upsert.v is hand-written; it is compared with the running engi
            'column.convert / the lookup-key conversion are an uninterpreted function of the model (theorems hold for '
            'every such function); the harness tabulates it from the running engine for the values of each case',
            'formula columns are recomputed by the engine, not by the action: their cells are not compared after the call']
-ASSUMPTIONS = ['values are None, ints and strings; columns are data columns of type Text/Int or real formula columns '
-               '(no empty columns, no reference/position columns, no trigger formulas); tables are user tables']
+ASSUMPTIONS = ['values are None, ints and strings; columns are data columns of type Text/Int, real formula columns, '
+               'and one empty column (isFormula=True, formula="") that only receives non-blank non-numeric strings '
+               '(its type is then guessed as Text) and whose untouched cells are compared modulo None = ""; no '
+               'reference/position columns, no trigger formulas; tables are user tables']
 TECHNIQUE = ('Coq refinement proof (accumulator-based model = per-row reference specification) + differential cases '
              'against the real engine evaluated by vm_compute + independent Python oracle on the implementation')
 LEVEL_TEXT = ('Kernel-checked theorems, for all tables/arguments/options/conversion functions: the executable model of '
@@ -37,12 +41,13 @@ LEVEL_NOTE = ('Trusted: Coq kernel, the hand-written model (validated differenti
 logging.disable(logging.CRITICAL)
 
 # column ids of the model
-COLS = {'id': 0, 'A': 1, 'B': 2, 'C': 3, 'D': 4, 'F': 5, 'Z': 9}
-DATA = ['A', 'B', 'C', 'D']
-DEFAULTS = {'A': '', 'B': 0, 'C': '', 'D': 0}
+COLS = {'id': 0, 'A': 1, 'B': 2, 'C': 3, 'D': 4, 'F': 5, 'E': 6, 'Z': 9}
+BASE = ['A', 'B', 'C', 'D']          # Text/Int data columns
+DATA = BASE + ['E']                  # + E: an EMPTY column (isFormula=True, formula='') until it is first written
+DEFAULTS = {'A': '', 'B': 0, 'C': '', 'D': 0, 'E': ''}
 SCHEMA_COQ = ('[{| c_id := 1; c_data := true; c_default := VText [] |}; {| c_id := 2; c_data := true; c_default := VInt 0 |}; '
               '{| c_id := 3; c_data := true; c_default := VText [] |}; {| c_id := 4; c_data := true; c_default := VInt 0 |}; '
-              '{| c_id := 5; c_data := false; c_default := VNone |}]')
+              '{| c_id := 5; c_data := false; c_default := VNone |}; {| c_id := 6; c_data := true; c_default := VText [] |}]')
 ON_MANY = {'first': 'OnFirst', 'none': 'OnNone', 'all': 'OnAll'}
 
 
@@ -67,12 +72,22 @@ def fresh_engine():
     {'id': 'A', 'type': 'Text', 'isFormula': False}, {'id': 'B', 'type': 'Int', 'isFormula': False},
     {'id': 'C', 'type': 'Text', 'isFormula': False}, {'id': 'D', 'type': 'Int', 'isFormula': False},
     {'id': 'F', 'type': 'Any', 'isFormula': True, 'formula': '$A.upper() if $A else ""'}])])
+  e.apply_user_actions([ua('AddColumn', 'T', 'E', {})])        # an empty column: isFormula=True, formula=''
   return e
+
+
+def e_is_empty(e):
+  rec = e.docmodel.get_column_rec('T', 'E')
+  return bool(rec.isFormula) and not rec.formula
 
 
 def fetch(e):
   t = e.fetch_table('T')
-  return [dict([('id', r)] + [(c, t.columns[c][i]) for c in DATA + ['F']]) for i, r in enumerate(t.row_ids)]
+  rows = [dict([('id', r)] + [(c, t.columns[c][i]) for c in DATA + ['F']]) for i, r in enumerate(t.row_ids)]
+  for r in rows:
+    if r['E'] is None:         # untouched cells of the empty column read None, '' once the column holds data
+      r['E'] = ''
+  return rows
 
 
 def tabulate(e, case):
@@ -90,7 +105,8 @@ def tabulate(e, case):
         stored = col.convert(v)
         rich = col._convert_raw_value(stored)
         conv[k] = (c, v, stored)
-        key[k] = (c, v, None if isinstance(rich, usertypes.AltText) else ('some', rich))
+        # a wrong-type value is looked up as AltText(text), which equals the AltText of a stored cell with that text
+        key[k] = (c, v, ('some', str(rich)) if isinstance(rich, usertypes.AltText) else ('some', rich))
   return list(conv.values()), list(key.values())
 
 
@@ -115,7 +131,7 @@ REUSE_ENGINE = True
 
 def release_engine(e, case, outcome, post):
   """Empty the table again with an ordinary action; drop the engine after anything unusual."""
-  if not REUSE_ENGINE or outcome[0] != 'ok':
+  if not REUSE_ENGINE or outcome[0] != 'ok' or case.get('prior') or not e_is_empty(e):
     return
   ids = [r['id'] for r in post]
   raw = []
@@ -141,8 +157,19 @@ def run_impl(case):
   e = get_engine(case)
   rows = case['rows']
   if rows:
-    e.apply_user_actions([ua('BulkAddRecord', 'T', [r['id'] for r in rows],
-                             {c: [r[c] for r in rows] for c in DATA})])
+    cols = {c: [r[c] for r in rows] for c in BASE}
+    if any(r.get('E') for r in rows):       # E already holds data before the call
+      cols['E'] = [r.get('E') or '' for r in rows]
+    e.apply_user_actions([ua('BulkAddRecord', 'T', [r['id'] for r in rows], cols)])
+  case['_prior'] = []
+  for call in case.get('prior', []):        # earlier upserts of a repeated-upsert case
+    try:
+      out = e.apply_user_actions([ua('BulkAddOrUpdateRecord' if call['bulk'] else 'AddOrUpdateRecord', 'T',
+                                     copy.deepcopy(call['require']), copy.deepcopy(call['col_values']),
+                                     dict(call['options']))])
+      case['_prior'].append(('ok', out.retValues[0]))
+    except Exception as ex:      # pylint: disable=broad-except
+      case['_prior'].append(('err', repr(ex)[:100]))
   pre = fetch(e)
   convtab, keytab = tabulate(e, case)
   name = 'BulkAddOrUpdateRecord' if case['bulk'] else 'AddOrUpdateRecord'
@@ -240,7 +267,7 @@ def coq_case(case, pre, convtab, keytab, outcome, post):
 
 EXTRA_DEFS = '''
 Definition the_schema := %s.
-Definition keep := [1; 2; 3; 4].
+Definition keep := [1; 2; 3; 4; 6].
 Definition expb := (table * (list (list Z) * list Z * list (list Z)) + error)%%type.
 Definition exps := (table * (list Z * action) + error)%%type.
 Definition okb (t : table) (r : list (list Z) * list Z * list (list Z)) : expb := inl (t, r).
@@ -275,6 +302,7 @@ POOL_REQ = {
   'B': [1, 1, 2, 2, 9, '1', '2', 'zz', None],
   'C': ['c0', 'c1', 'n'],
   'F': ['A', 'B', 'Z', 'a'],
+  'E': ['k', 'k', 'm', 'v'],          # non-blank, non-numeric strings (the column type is then guessed as Text)
   'Z': ['a', 1],
 }
 POOL_VAL = {
@@ -282,6 +310,7 @@ POOL_VAL = {
   'B': [1, 2, 5, '3', 'xx', None],
   'C': ['c0', 'c0', 'c1', 'n1', 'n2', 8, None],
   'D': [0, 5, 6, '7'],
+  'E': ['v', 'w', 'k'],
   'F': ['x'],
   'Z': ['x'],
   'id': [50, 51],
@@ -294,8 +323,10 @@ def gen_rows(rng):
     ids = sorted(rng.sample(range(1, 12), k))
   else:
     ids = list(range(1, k + 1))
+  e_data = rng.random() < 0.3          # E already holds data (a Text column by then); else it is still an empty column
   return [{'id': i, 'A': rng.choice(['a', 'a', 'b', 'c']), 'B': rng.choice([1, 2]),
-           'C': rng.choice(['c0', 'c0', 'c1']), 'D': rng.choice([0, 5])} for i in ids]
+           'C': rng.choice(['c0', 'c0', 'c1']), 'D': rng.choice([0, 5]),
+           'E': rng.choice(['k', 'k', 'm', '']) if e_data else None} for i in ids]
 
 
 def gen_options(rng, force=None):
@@ -338,9 +369,15 @@ def gen_case(rng):
     reqkeys = ['B'] + (['A'] if rng.random() < 0.2 else [])
     valkeys = rng.sample(['C', 'D'], rng.choice([1, 1, 2]))
     opts = gen_options(rng, {'on_many': rng.choice(['all', 'all', 'first'])})
+  elif stream < 0.38:                     # the empty column in require and/or col_values
+    reqkeys = ['E'] + rng.sample(['A', 'B', 'id'], rng.choice([0, 0, 1]))
+    valkeys = rng.sample(['C', 'D', 'E'], rng.choice([0, 1, 1, 2]))
+    if rng.random() < 0.3:
+      reqkeys, valkeys = rng.sample(['A', 'B'], 1), ['E'] + rng.sample(['C', 'D'], rng.choice([0, 1]))
+    opts = gen_options(rng)
   else:
-    reqkeys = rng.sample(['A', 'B', 'F', 'id', 'C'] + (['Z'] if rng.random() < 0.05 else []), rng.choice([0, 1, 1, 1, 2, 2, 3]))
-    valkeys = rng.sample(['C', 'D', 'A', 'B'] + (rng.sample(['F', 'Z', 'id'], 1) if rng.random() < 0.07 else []),
+    reqkeys = rng.sample(['A', 'B', 'F', 'id', 'C', 'E'] + (['Z'] if rng.random() < 0.05 else []), rng.choice([0, 1, 1, 1, 2, 2, 3]))
+    valkeys = rng.sample(['C', 'D', 'A', 'B', 'E'] + (rng.sample(['F', 'Z', 'id'], 1) if rng.random() < 0.07 else []),
                          rng.choice([0, 1, 1, 2]))
     opts = gen_options(rng)
   ids = id_pool(rng, rows)
@@ -367,7 +404,7 @@ def gen_case(rng):
   # values equal to what is stored, so that some updates are no-ops
   if rows and valkeys and rng.random() < 0.35:
     c = valkeys[0]
-    if c in DATA:
+    if c in BASE:
       col_values[c] = [rng.choice([r[c] for r in rows] + [col_values[c][i]]) for i in range(m)]
   if bulk and rng.random() < 0.07:        # mismatched lengths
     d = rng.choice([d for d in (require, col_values) if d] or [col_values])
@@ -377,7 +414,16 @@ def gen_case(rng):
   if not bulk:
     require = {c: (v[0] if v else pick_req(c)) for c, v in require.items()}
     col_values = {c: (v[0] if v else rng.choice(POOL_VAL[c])) for c, v in col_values.items()}
-  return {'rows': rows, 'bulk': bulk, 'require': require, 'col_values': col_values, 'options': opts}
+  case = {'rows': rows, 'bulk': bulk, 'require': require, 'col_values': col_values, 'options': opts}
+  if rng.random() < 0.15:                 # repeated upsert: the same call was already made once before
+    case['prior'] = [copy.deepcopy({k: case[k] for k in ('bulk', 'require', 'col_values', 'options')})]
+    if rng.random() < 0.3 and col_values:  # ... with other values
+      c = rng.choice(list(col_values))
+      if bulk:
+        case['prior'][0]['col_values'][c] = [rng.choice(POOL_VAL[c]) for _ in col_values[c]]
+      else:
+        case['prior'][0]['col_values'][c] = rng.choice(POOL_VAL[c])
+  return case
 
 
 def exhaustive_cases():
@@ -407,6 +453,14 @@ REGRESSION = [
    'require': {'A': ['x', 'y', 'z'], 'id': [-1, 3, None]}, 'col_values': {'C': ['p', 'q', 'r']}, 'options': {}},
   {'rows': [{'id': 1, 'A': 'a', 'B': 1, 'C': 'c0', 'D': 0}], 'bulk': True, 'require': {},
    'col_values': {'C': ['x', 'c0']}, 'options': {'allow_empty_require': True}},
+  # an empty column in require: the added record carries the require value; the repeated call updates it
+  {'rows': [{'id': 1, 'A': 'a', 'B': 1, 'C': 'c0', 'D': 0}], 'bulk': False, 'require': {'E': 'k'},
+   'col_values': {'C': 'x'}, 'options': {}},
+  {'rows': [{'id': 1, 'A': 'a', 'B': 1, 'C': 'c0', 'D': 0}], 'bulk': False, 'require': {'E': 'k'},
+   'col_values': {'C': 'x'}, 'options': {},
+   'prior': [{'bulk': False, 'require': {'E': 'k'}, 'col_values': {'C': 'x'}, 'options': {}}]},
+  {'rows': [], 'bulk': True, 'require': {'E': ['k', 'm']}, 'col_values': {'D': [5, 6]}, 'options': {},
+   'prior': [{'bulk': True, 'require': {'E': ['k', 'm']}, 'col_values': {'D': [5, 6]}, 'options': {}}]},
 ]
 
 
@@ -453,7 +507,7 @@ def reference(case, pre, convtab, keytab):
   keys = [tuple(rep_key(require[c][i]) for c in require) for i in range(n)]
   if require and len(set(keys)) < n:
     return ('err', 'EUnique', 'duplicate keys')
-  if any(c not in ('id', 'A', 'B', 'C', 'D', 'F') for c in require):
+  if any(c not in ('id', 'A', 'B', 'C', 'D', 'E', 'F') for c in require):
     return ('err', 'EEnv', 'unknown require column')
   # what each input row asks for, on the pre-call table
   asks = []
@@ -537,8 +591,40 @@ def finish(case, table, resolved, asks):
   return ('ok', table, ret)
 
 
+def repeated_adds_again(case, outcome):
+  """Upserts are idempotent on plain data columns: after the same call was made once, every require row has a match
+  (or adding is off), so the repeated call must not add a record."""
+  prior, done = case.get('prior'), case.get('_prior')
+  if not prior or not done or done[-1][0] != 'ok' or outcome[0] != 'ok':
+    return None
+  call, req = prior[-1], case['require']
+  if any(call[k] != case[k] for k in ('bulk', 'require', 'options')) or not req:
+    return None
+  if set(req) & (set(case['col_values']) | set(call['col_values'])):
+    return None                 # col_values override the require values of the added record
+  for c, vals in req.items():
+    vals = vals if case['bulk'] else [vals]
+    if c in ('A', 'C', 'E'):
+      ok = all(isinstance(v, str) and v for v in vals)
+    elif c in ('B', 'D'):
+      ok = all(isinstance(v, int) and not isinstance(v, bool) for v in vals)
+    else:
+      return None               # formula columns are not copied into the added record; ids are C27's subject
+    if not ok:
+      return None
+  ret = outcome[1]
+  added = ret['addRecordIds'] if case['bulk'] else (ret['recordIds'] if ret['action'] == 'ADD' else [])
+  if added:
+    return ('repeat-adds-again', 'the same upsert was made twice; the first returned %r, the repeated call added '
+            'records %r instead of updating the records the first call added' % (done[-1][1], added))
+  return None
+
+
 def judge(case, pre, convtab, keytab, outcome, post):
   """None when the implementation follows the reference, else (kind, description)."""
+  v = repeated_adds_again(case, outcome)
+  if v:
+    return v
   exp = reference(case, pre, convtab, keytab)
   pre_d = [{k: r[k] for k in ['id'] + DATA} for r in pre]
   post_d = [{k: r[k] for k in ['id'] + DATA} for r in post]
@@ -662,7 +748,7 @@ def case_key(case):
 
 
 def public(case):
-  return copy.deepcopy({k: case[k] for k in ('rows', 'bulk', 'require', 'col_values', 'options')})
+  return copy.deepcopy({k: case[k] for k in ('rows', 'bulk', 'require', 'col_values', 'options', 'prior') if k in case})
 
 
 def search(ctx):
